@@ -283,6 +283,9 @@ pub fn build_inputs(a: &Args, rng: &mut Rng) -> Vec<RunInput> {
             if n % 5 == 0 { v.push(RunInput { text: format!("{p} "), front: "plain".into(), wrap: 0, cfg: "curated".into(), dialect: 0, src: "soup-prefix" }); }
         }
     }
+    for (i, t) in inputs::currency_texts().into_iter().enumerate() {
+        if i % 3 == 0 { v.push(RunInput { text: t, front: "plain".into(), wrap: 0, cfg: "all".into(), dialect: i % 4, src: "currency" }); }
+    }
     for (i, t) in inputs::glued_pairs().into_iter().enumerate() {
         v.push(RunInput { text: t, front: if i % 4 == 0 { "markdown".into() } else { "plain".into() }, wrap: 0, cfg: if i % 5 == 2 { "user".into() } else { "all".into() }, dialect: i % 4, src: "glued" });
     }
